@@ -54,9 +54,76 @@ def rand_str(rng: random.Random, maxlen: int = 6) -> str:
 # the property's own relations (reference computation, written from Custodian's OPERATORS table)
 # ---------------------------------------------------------------------------------------------
 
+def parse_glob(pat: str):
+    """shell-style pattern -> items ('star',) | ('any',) | ('lit', c) | ('set', negated, [(lo, hi), ...]).
+    Custodian's `glob` is Python's fnmatch: `*`, `?`, `[seq]`, `[!seq]` (ranges `a-z`; a `]` directly after
+    `[` or `[!` is a member; a `[` that is never closed is an ordinary character). None where a class has
+    no single agreed reading (regex-flavoured characters, reversed or chained ranges): nothing to hold the
+    translation to."""
+    items: List[tuple] = []
+    i, n = 0, len(pat)
+    while i < n:
+        c = pat[i]
+        i += 1
+        if c == "*":
+            items.append(("star",))
+        elif c == "?":
+            items.append(("any",))
+        elif c == "[":
+            j = i
+            if j < n and pat[j] == "!":
+                j += 1
+            if j < n and pat[j] == "]":
+                j += 1
+            while j < n and pat[j] != "]":
+                j += 1
+            if j >= n:
+                items.append(("lit", "["))
+                continue
+            body = pat[i:j]
+            i = j + 1
+            neg = body.startswith("!")
+            if neg:
+                body = body[1:]
+            if not body:
+                return None
+            ranges: List[tuple] = []
+            k = 0
+            while k < len(body):
+                ch = body[k]
+                if ch in "\\^[&~|":
+                    return None
+                if k + 2 < len(body) and body[k + 1] == "-":
+                    lo, hi = ch, body[k + 2]
+                    if lo == "-" or hi in "\\^[&~|-" or lo > hi:
+                        return None
+                    if k + 3 < len(body) and body[k + 3] == "-":
+                        return None
+                    ranges.append((lo, hi))
+                    k += 3
+                else:
+                    if ch == "-" and 0 < k < len(body) - 1:
+                        return None
+                    ranges.append((ch, ch))
+                    k += 1
+            items.append(("set", neg, ranges))
+        else:
+            items.append(("lit", c))
+    return items
+
+
+def glob_item_matches(it: tuple, ch: str) -> bool:
+    if it[0] == "any":
+        return True
+    if it[0] == "lit":
+        return it[1] == ch
+    return any(lo <= ch <= hi for lo, hi in it[2]) != it[1]
+
+
 def ref_glob(text: str, pat: str) -> Optional[bool]:
-    """`*`, `?`, literal characters; no classes"""
-    if "[" in pat:
+    """the glob relation, computed here (own matcher: no fnmatch, no regular expressions)"""
+    items = parse_glob(pat)
+    if items is None:
         return None
     memo: Dict[Any, bool] = {}
 
@@ -64,15 +131,77 @@ def ref_glob(text: str, pat: str) -> Optional[bool]:
         k = (i, j)
         if k in memo:
             return memo[k]
-        if i == len(pat):
+        if i == len(items):
             r = j == len(text)
-        elif pat[i] == "*":
+        elif items[i][0] == "star":
             r = any(go(i + 1, jj) for jj in range(j, len(text) + 1))
         else:
-            r = j < len(text) and (pat[i] == "?" or pat[i] == text[j]) and go(i + 1, j + 1)
+            r = j < len(text) and glob_item_matches(items[i], text[j]) and go(i + 1, j + 1)
         memo[k] = r
         return r
     return go(0, 0)
+
+
+GLOB_FILL = ["a", "b", "x", "0", "5", "9", "-", "z", "A", ".", "1", "c", "]", "[", "!", "\u00e9", "\n", "*", "?"]
+
+
+def glob_texts(rng: random.Random, pat: str, n_inst: int = 2) -> List[str]:
+    """resource texts on both sides of what the pattern accepts: instances built piece by piece (a member
+    for every class, a run for every `*`), instances with ONE piece violated (a non-member of a class, a
+    changed literal), the pattern's own text (its literal reading), an instance with a character
+    added at either end, the empty text"""
+    items = parse_glob(pat)
+    if items is None:
+        return [pat, ""]
+
+    def pick(it: tuple, member: bool) -> Optional[str]:
+        pool = [c for c in GLOB_FILL if glob_item_matches(it, c) == member]
+        if it[0] == "set" and member and not it[1]:
+            pool += [lo for lo, _ in it[2]] + [hi for _, hi in it[2]]
+        return rng.choice(pool) if pool else None
+
+    def inst(violate: Optional[int] = None) -> Optional[str]:
+        out = []
+        for i, it in enumerate(items):
+            if it[0] == "star":
+                out.append("".join(rng.choice(GLOB_FILL[:12]) for _ in range(rng.choice([0, 0, 1, 3]))))
+            else:
+                ch = pick(it, i != violate)
+                if ch is None:
+                    return None
+                out.append(ch)
+        return "".join(out)
+
+    texts: List[str] = [pat, ""]
+    for _ in range(n_inst):
+        t = inst()
+        if t is not None:
+            texts += [t, t + "a", "a" + t]
+    singles = [i for i, it in enumerate(items) if it[0] != "star"]
+    for i in (singles if len(singles) <= 3 else rng.sample(singles, 3)):
+        t = inst(violate=i)
+        if t is not None:
+            texts.append(t)
+    return list(dict.fromkeys(texts))
+
+
+def glob_patterns(rng: random.Random, quick: bool) -> List[str]:
+    """every shape of pattern around a stem: literal, one-sided and two-sided `*`, an inner `*`, `?`, a
+    class / negated class / range at the start, in the middle, at the end, classes that quote a wildcard
+    (`[*]`, `[?]`), an unclosed `[`, characters that are special to regular expressions but not to glob"""
+    stems = ["i-[0-9]", "db[12]", "-az[1-3]-", "[ab]", "web-??", "a.b", "x+y(z)$", "^a|b", "v[!0-9]", "[a-c]x[!a-c]",
+             "a[*]b", "q[?]", "[]]", "[!]]x", "a[b", "[", "[!]", "lit", "w?b", "a*z", "[0-9][0-9]", "n[-a]", "n[a-]", "{0}",
+             "\\d", "\u00e9[\u00e0-\u00ff]"]
+    if not quick:
+        stems += ["[!ab]", "[.]", "[0-9a-f]", "x[y", "[[]", "a]b", "[a-c-e]", "[z-a]", "[\\]]", "[^a]", "[!!]", "[!-]"]
+    pats: List[str] = []
+    for st in stems:
+        pats += [st, st + "*", "*" + st, "*" + st + "*"]
+    pats += ["*", "**", "?", "??", "", "*?", "?*", "*[0-9]*[a-z]", "a*[0-9]", "[ab]*[cd]", "*.py", "*-prod-*"]
+    alpha = ["a", "b", "0", "-", ".", "*", "*", "?", "[0-9]", "[ab]", "[!a]", "[a-c]", "[", "]", "!", "x"]
+    for _ in range(12 if quick else 400):
+        pats.append("".join(rng.choice(alpha) for _ in range(rng.randint(1, 5))))
+    return list(dict.fromkeys(pats))
 
 
 def kind_of(x: Any) -> str:
@@ -610,6 +739,38 @@ class C19(Prop):
                 if op in ("eq", "ne"):
                     add(op, v, v, vt="swap", _keep=True)
                     add(op, v, " " + v.upper() + " ", vt="normalize", _keep=True)
+        # glob: the whole pattern language (`*`, `?`, `[seq]`, `[!seq]`, ranges, quoted wildcards, unclosed `[`)
+        # in every position relative to leading / trailing / inner `*`, against texts on both sides of
+        # what each pattern accepts — including the pattern's own text (its reading as a plain string)
+        for pat in glob_patterns(rng, quick):
+            if not lean_ok_str(pat):
+                continue
+            for i, r in enumerate(glob_texts(rng, pat, 2 if quick else 4)):
+                base = {"op": "glob", "value": pat, "r": r, "vt": None, "now": NOW, "key": "k", "_keep": True}
+                out.append(dict(base, kind="clause"))
+                if i == 0:
+                    out.append(dict(base, kind="emit"))
+        # list values: every element is a policy string and must come back exactly. Elements over the
+        # whole adversarial alphabet (either quote, both quotes, backslashes and backslash-escape look-alikes,
+        # controls, DEL, C1 controls, line/paragraph separators, combining and astral characters), compared
+        # with resources holding exactly that element, a neighbour of it, and the whole list
+        lists: List[List[str]] = [["\U0001F680", "team-\U0001F40D"], ["\U00020BB7\u91ce\u5bb6"],
+                                  ["\x85", "\u2028", "\u2029", "\xa0"],
+                                  ["\\u00e9", "\\x41", "\\101", "\\U0001F600"], ["\x7f", "\x00", "\x1b[0m"],
+                                  ["e\u0301", "\xe9"], ["\u0660", "\uffff", "\U0010FFFF"],
+                                  ["it's", 'say "hi"', "both'\""], ["\ud7ff", ""]]
+        for _ in range(8 if quick else 300):
+            lists.append([rand_str(rng, 5) for _ in range(rng.randint(1, 3))])
+        for v in lists:
+            if not all(lean_ok_str(e) for e in v):
+                continue
+            for op in ("in", "ni", "not-in"):
+                for e in v:
+                    for r in dict.fromkeys([e, e + "a", e[:-1]]):
+                        add(op, v, r, _keep=True)
+            for op in ("intersect", "difference", "eq", "ne"):
+                for r in (v, v[:1], v[1:], [v[-1], "zz"], ["zz"], list(reversed(v)), [e + "a" for e in v]):
+                    add(op, v, r, _keep=True)
         for op in OPS:
             # strings
             for v in (svals if not quick else rng.sample(svals, 9) + ["abc", "back\\slash"]):
